@@ -154,9 +154,18 @@ ControlResponse parse_response(NativeSocket socket, const ControlTransferProgres
     bool status_seen = false;
     std::optional<std::size_t> payload_length;
 
+    std::string last_key;
     while (recv_line(socket, line)) {
         if (line.empty()) {
             break;
+        }
+        if (line.front() == '\t') {
+            // Continuation of a folded multi-line value (see ControlServer::send_response).
+            if (const auto it = response.fields.find(last_key); !last_key.empty() && it != response.fields.end()) {
+                it->second.push_back('\n');
+                it->second.append(line, 1, std::string::npos);
+            }
+            continue;
         }
         const auto pos = line.find(':');
         if (pos == std::string::npos) {
@@ -164,6 +173,7 @@ ControlResponse parse_response(NativeSocket socket, const ControlTransferProgres
         }
         const auto key = to_upper(line.substr(0, pos));
         const auto value = line.substr(pos + 1);
+        last_key = (key == "STATUS" || key == "PAYLOAD-LENGTH") ? std::string{} : key;
         if (key == "STATUS") {
             status_seen = true;
             response.success = (to_upper(value) == "OK");
